@@ -158,7 +158,7 @@ func (in *Interp) setFact(c *Term, v bool) {
 }
 
 func (in *Interp) solve(kind string, extra []*Term, want []*Term) (Verdict, map[*Term]ModelVal) {
-	if !in.cfg.Deadline.IsZero() && time.Now().After(in.cfg.Deadline) {
+	if in.executing && !in.cfg.Deadline.IsZero() && time.Now().After(in.cfg.Deadline) {
 		// the run's deadline has passed in the middle of a path (a path that keeps the solver busy
 		// query after query): end it; it is reported as not explored
 		panic(budgetExceeded{"run deadline"})
